@@ -437,6 +437,9 @@ def _contains(ex, container, item, st):
         return z3.Bool(fresh_name("instr"))
     if isinstance(container, Opaque):
         return z3.Bool(fresh_name("in"))
+    if isinstance(container, ModuleRef):
+        # a module-level container: whatever earlier calls (of any system, in any order) left in it -- membership is not known
+        return z3.Bool(fresh_name("in_module_state"))
     raise Havoc("contains")
 
 
